@@ -242,7 +242,8 @@ def check_intdiv(ctx):
 # order of the flags in the reply to `TR supported2`
 FLAGS2 = ['inegCore', 'iaddCore', 'igtCore', 'kbRingIndex', 'kbLength', 'kbStart', 'kbStop', 'kbFull',
           'cgaCoords', 'egaCoords', 'tandy6Coords', 'coordOk', 'vpWidthHeight', 'vpBounds', 'vpConvert',
-          'vpContains', 'vpMid', 'vpCutoff', 'scalarRecordSize', 'arrayRecordSize']
+          'vpContains', 'vpMid', 'vpCutoff', 'scalarRecordSize', 'arrayRecordSize',
+          'rfEof', 'rfSeek', 'rfPutOffset']
 
 
 def _supported2(ctx, names):
@@ -496,4 +497,118 @@ def check_recsize(ctx):
             for d in (1, 2, 3, rng.randrange(1, 256)):
                 b.add('arec', {'name_len': n, 'ndims': d},
                       _guard(lambda: 'ok %d' % arrays.Arrays._record_size(name, [1] * d)), 'arec %d %d' % (n, d))
+    b.run()
+
+
+# ---------------------------------------------------------------------------------------------
+# C25: record arithmetic of RandomFile.eof / _set_record_pos / put on a real RandomFile object
+
+class _SpyHandle(object):
+    """Host file object of the given length that records every seek and write (no bytes are stored:
+    record numbers go up to 2**25)."""
+
+    def __init__(self, length):
+        self.length, self.pos, self.seeks, self.writes = length, 0, [], []
+
+    def seek(self, off, whence=0):
+        if whence == 2:
+            self.pos = self.length + off
+        else:
+            self.seeks.append(off)
+            self.pos = off
+
+    def tell(self):
+        return self.pos
+
+    def read(self, n):
+        n = max(0, min(n, self.length - self.pos))
+        self.pos += n
+        return b'\0' * n
+
+    def write(self, data):
+        self.writes.append((self.pos, len(data)))
+        self.pos += len(data)
+        self.length = max(self.length, self.pos)
+
+    def close(self):
+        pass
+
+
+def check_randfile(ctx):
+    from pcbasic.basic.devices import diskfiles
+    flags = _supported2(ctx, ['rfEof', 'rfSeek', 'rfPutOffset'])
+    if flags is None:
+        return
+
+    class _Field(object):
+        def __init__(self, n):
+            self.buf = bytearray(n)
+
+        def view_buffer(self):
+            return memoryview(self.buf)
+
+    class _NoLocks(object):
+        def try_record_access(self, *a):
+            pass
+
+        def open_file(self, *a, **k):
+            pass
+
+        def close_file(self, *a):
+            pass
+
+    def make(reclen, length, recpos):
+        h = _SpyHandle(length)
+        rf = diskfiles.RandomFile.__new__(diskfiles.RandomFile)
+        rf._fhandle, rf._recpos, rf._number, rf._locks = h, recpos, 1, _NoLocks()
+        rf.reclen = reclen
+        fld = _Field(reclen)
+
+        class _FF(object):
+            def set_buffer(self, contents):
+                fld.buf[:reclen] = contents.ljust(reclen, b'\0')
+
+            def get_buffer(self):
+                return bytearray(fld.buf[:reclen])
+        rf._field_file = _FF()
+        return rf, h
+
+    b = _Batch(ctx, 'translated-randfile')
+    rng = b.rng
+    recs = [1, 2, 3, 4, 7, 128, 129, 255, 256, 32767]
+    cases = []
+    for rl in recs:
+        for k in (0, 1, 2, 5):
+            for d in (-1, 0, 1):
+                cases.append((rl, max(0, k * rl + d), k))
+    for _ in range(150):
+        rl = rng.choice(recs + [rng.randrange(1, 32768)])
+        rp = rng.choice([0, 1, 2, rng.randrange(0, 50), rng.randrange(0, 1 << 25)])
+        ln = max(0, rp * rl + rng.choice([-rl, -1, 0, 1, rl, -rng.randrange(0, 1 + rp * rl), rng.randrange(0, 5000)]))
+        cases.append((rl, ln, rp))
+    for rl, ln, rp in cases:
+        if flags.get('rfEof'):
+            def impl_eof():
+                rf, h = make(rl, ln, rp)
+                return 'ok %d' % (1 if rf.eof() else 0)
+            b.add('rfeof:' + ('behind' if rp * rl > ln else 'at' if rp * rl == ln else 'inside'),
+                  {'reclen': rl, 'lof': ln, 'recpos': rp}, _guard(impl_eof), 'rfeof %d %d %d' % (rp, rl, ln))
+        if flags.get('rfSeek'):
+            pos = rp + 1
+
+            def impl_seek():
+                rf, h = make(rl, ln, 3)
+                rf._set_record_pos(pos)
+                return 'ok %d,%d' % (h.seeks[-1], rf._recpos)
+            b.add('rfseek', {'reclen': rl, 'pos': pos}, _guard(impl_seek), 'rfseek %d %d' % (pos, rl))
+        if flags.get('rfPutOffset'):
+            def impl_put():
+                rf, h = make(rl, ln, rp)
+                rf.put(None)
+                (off, n), = h.writes
+                if n != rl or rf._recpos != rp + 1:
+                    return 'bad write length %d / recpos %d' % (n, rf._recpos)
+                return 'ok %d' % off
+            b.add('rfput:' + ('gap' if rp * rl > ln else 'nogap'), {'reclen': rl, 'lof': ln, 'recpos': rp},
+                  _guard(impl_put), 'rfput %d %d' % (rp, rl))
     b.run()
